@@ -17,7 +17,9 @@ RULE = (
     "on a file-backed SQLite backend under the harness executor. For each workload the backend's "
     "session.commit is wrapped, the N commit points of the fault-free run are counted, and the run "
     "is repeated once per (commit point k, fault kind) for ALL k in 1..N and kinds {die before the "
-    "commit, die right after it, one transient OperationalError}: exhaustive per workload. After a "
+    "commit, die right after it, one transient OperationalError}, and once per SQL statement s in 1..S "
+    "that the backend executes inside a db_retry-wrapped method (the statement fails once with an "
+    "OperationalError before reaching the database): exhaustive per workload. After a "
     "simulated death the session is dropped, the engine disposed and the file reopened (what process "
     "exit does); then PRAGMA foreign_key_check must be empty and two recovery executions — the same "
     "program, then the program with one task edited — must return what a fresh backend returns. For "
@@ -32,7 +34,7 @@ ASSUMPTIONS = [
 ]
 MANIFEST = {
     "technique": "exhaustive fault enumeration over the commit points of generated workloads, recovery differential vs fresh backend",
-    "text": "fault_enumeration: every commit point x {die before, die after, one OperationalError} of each workload is injected and recovery is compared with a fresh backend; exhaustive per workload, workloads themselves are sampled",
+    "text": "fault_enumeration: every commit point x {die before, die after, one OperationalError} and every SQL statement of the retried operations x {one OperationalError} of each workload is injected and recovery is compared with a fresh backend; exhaustive per workload, workloads themselves are sampled",
 }
 SHARDS = 16
 
@@ -103,6 +105,14 @@ def prepare(w):
         ref = {"R0": outcome(r0), "N": fs.count, "sites": list(fs.sites), "D0": dbx.dump(b)}
     finally:
         dbx.discard_backend(b)
+    b = dbx.fresh_backend()
+    try:
+        st_ = dbx.FaultyStatements(b)
+        run_on(fam, w["arg"], b)
+        st_.remove()
+        ref["NS"] = st_.count
+    finally:
+        dbx.discard_backend(b)
     fam.install(w["edit"][0], w["edit"][1])
     b = dbx.fresh_backend()
     try:
@@ -118,7 +128,7 @@ def inject(ctx: Ctx, w, ref, k: int, kind: str):
     fam = codefam.Family(len(w["init"]))
     fam.install_all(w["init"])
     b = dbx.fresh_backend()
-    fs = dbx.FaultySession(b, at=k, kind=kind)
+    fs = dbx.FaultyStatements(b, at=k) if kind == "stmt" else dbx.FaultySession(b, at=k, kind=kind)
     site = "?"
     try:
         died = False
@@ -129,19 +139,23 @@ def inject(ctx: Ctx, w, ref, k: int, kind: str):
             r = None
         site = fs.fired or "not-reached"
         fs.remove()
-        if kind == "operr":
+        if kind in ("operr", "stmt"):
             if died or fs.fired is None:
                 return site
+            where = f"commit {k}" if kind == "operr" else f"statement {k} of the retried operations"
             got = outcome(r)
             if got != ref["R0"]:
                 cons = f"run-raises-{got[1]}" if got[0] == "err" and ref["R0"][0] != "err" else "run-wrong-result"
-                raise Violation(f"operr:{site}:{cons}", f"one transient OperationalError at commit {k} ({site}): the run gave {got}, "
+                raise Violation(f"{kind}:{site}:{cons}", f"one transient OperationalError at {where} ({site}): the run gave {got}, "
                                 f"fault-free {ref['R0']}: {r.payload!r:.300}", case)
             diffs = dbx.dump_diff(ref["D0"], dbx.dump(b))
             if diffs:
                 tables = "+".join(d.split(":")[0] for d in diffs)
-                raise Violation(f"operr:{site}:records-differ-{tables}", f"after one retried commit ({site}) the database differs from the "
-                                f"fault-free run: {'; '.join(diffs)[:600]}", case)
+                raise Violation(f"{kind}:{site}:records-differ-{tables}", f"after one retried operation ({where}, {site}) the database "
+                                f"differs from the fault-free run: {'; '.join(diffs)[:600]}", case)
+            fk = dbx.fk_check(b)
+            if fk:
+                raise Violation(f"{kind}:{site}:fk-violation", f"dangling references after a retried operation: {fk[:3]}", case)
             return site
         if not died:
             return site
@@ -181,8 +195,10 @@ RECORDING = ("record_call_node", "record_value", "record_job", "record_tags", "s
 
 def enumerate_workload(ctx: Ctx, w) -> None:
     ref = prepare(w)
-    for k in range(1, ref["N"] + 1):
-        for kind in ("before", "after", "operr"):
+    points = [(k, kind) for k in range(1, ref["N"] + 1) for kind in ("before", "after", "operr")]
+    points += [(k, "stmt") for k in range(1, ref["NS"] + 1)]
+    for k, kind in points:
+        for _ in (0,):
             site = "?"
             try:
                 site = inject(ctx, w, ref, k, kind)
@@ -199,6 +215,7 @@ def enumerate_workload(ctx: Ctx, w) -> None:
                      nontrivial=any(s in site for s in RECORDING))
     ctx.coverage_extra["workloads_enumerated"] = ctx.coverage_extra.get("workloads_enumerated", 0) + 1
     ctx.coverage_extra["commit_points"] = ctx.coverage_extra.get("commit_points", 0) + ref["N"]
+    ctx.coverage_extra["statement_points"] = ctx.coverage_extra.get("statement_points", 0) + ref["NS"]
 
 
 def check(ctx: Ctx) -> None:
